@@ -1112,6 +1112,7 @@ class TwoDSpectrumBase(DataSaveable):
             flag_saved = [self.current_dtype, self.current_tag]
         # a refused addition leaves the response as it was, also the first
         # one, which prepares the storage before it looks at the data
+        had_storage = hasattr(self, "_d__data")
         storage_saved = getattr(self, "_d__data", None)
         initialized_saved = self.storage_initialized
         resolution_saved = self.storage_resolution
@@ -1120,7 +1121,10 @@ class TwoDSpectrumBase(DataSaveable):
                                    dtype=dtype, tag=tag)
         except Exception:
             if not initialized_saved:
-                self._d__data = storage_saved
+                if had_storage:
+                    self._d__data = storage_saved
+                elif hasattr(self, "_d__data"):
+                    del self._d__data
                 self.storage_initialized = initialized_saved
                 self.storage_resolution = resolution_saved
             raise
